@@ -153,7 +153,16 @@ func (m *mantarayManifest) IterateAddresses(ctx context.Context, fn boson.Addres
 		return ErrMissingReference
 	}
 
-	emptyAddr := boson.NewAddress([]byte{31: 0})
+	// an entry without a reference is serialised as zero bytes of the manifest's
+	// reference size (32, or 64 in encrypted manifests)
+	isZero := func(b []byte) bool {
+		for _, x := range b {
+			if x != 0 {
+				return false
+			}
+		}
+		return true
+	}
 	walker := func(path []byte, node *mantaray.Node, err error) error {
 		if err != nil {
 			return err
@@ -178,7 +187,7 @@ func (m *mantarayManifest) IterateAddresses(ctx context.Context, fn boson.Addres
 				// for manifest). This workaround should be
 				// removed after the manifest serialization bug
 				// is fixed.
-				if entry.Equal(emptyAddr) {
+				if isZero(node.Entry()) {
 					return nil
 				}
 				if err = fn(entry); err != nil {
